@@ -26,7 +26,7 @@ BUILTIN_NAMES = {
     "list", "tuple", "isinstance", "ord", "chr", "divmod", "bool", "any", "all", "sorted", "iter", "next",
     "ceil", "floor", "sqrt", "hash", "getattr", "cast", "dict", "set", "print", "repr", "hasattr", "callable", "super",
 }
-SPEC_BUILTINS = {"old", "acq", "line_cells", "joined", "implies", "cells", "width_of", "lsum", "fresh_result", "is_ref", "seq_eq", "iff", "ite", "prefix_pad", "char_at", "count_true"}
+SPEC_BUILTINS = {"old", "acq", "line_cells", "joined", "joinlen", "joincells", "implies", "cells", "width_of", "lsum", "fresh_result", "is_ref", "seq_eq", "iff", "ite", "prefix_pad", "char_at", "count_true"}
 
 
 class CallMixin:
@@ -54,6 +54,9 @@ class CallMixin:
                 m2, n2 = mod.imports[name]
                 if n2 is None:
                     return VFunc("module", m2)
+                if (m2, n2) in (("rich._loop", "loop_last"), ("rich._loop", "loop_first")):
+                    # generator helpers with a trusted iterable contract (bi_loop_last / bi_loop_first)
+                    return VFunc("builtin", n2)
                 if m2.startswith("rich"):
                     try:
                         sub = source.load(m2)
